@@ -49,9 +49,16 @@ func (c08) Plan(tier string, seed int64) []core.Scenario {
 							continue
 						}
 						out = append(out, s.WithN("pos", pos).WithN("ord", 1+k+rng.Intn(3)))
+						if (pos+ki)%2 == 0 {
+							// the same on a client that does not reconnect: the loss ends its connection loop
+							out = append(out, s.WithN("pos", pos).WithN("ord", 1+k+rng.Intn(3)).WithN("noreconn", 1))
+						}
 					}
 				} else {
 					out = append(out, s)
+					if cause == "cclose" {
+						out = append(out, s.WithN("noreconn", 1))
+					}
 				}
 			}
 		}
@@ -170,6 +177,10 @@ func (c08) term(sc core.Scenario, r *core.R) {
 	if cause == "BLACKHOLE" {
 		opts = append(opts, jsonrpc.WithPingInterval(50*time.Millisecond), jsonrpc.WithTimeout(400*time.Millisecond))
 	}
+	noReconn := sc.I("noreconn") == 1
+	if noReconn {
+		opts = append(opts, jsonrpc.WithNoReconnect())
+	}
 	cl, err := env.NewClient(ClientOpt{Opts: opts})
 	if err != nil {
 		r.Inconclusive("client: %v", err)
@@ -282,7 +293,17 @@ func (c08) term(sc core.Scenario, r *core.R) {
 			// ordinal beyond the stream: strike now
 			env.Px.KillAll(cause)
 		}
-		if !probeUntilHealthy(cl, r, 2*core.Grace) {
+		if noReconn {
+			// no healing: the cause is established once the client has noticed the loss, i.e. a new call fails
+			if !core.Eventually(2*core.Grace, func() bool {
+				t := Tok("p")
+				o := Go(t, func() (string, error) { return cl.Echo(context.Background(), t, "") })
+				return o.Wait(core.Grace) && o.Err != nil
+			}) {
+				r.Inconclusive("a client without reconnect never reported the loss (%s)", cause)
+				return
+			}
+		} else if !probeUntilHealthy(cl, r, 2*core.Grace) {
 			r.Inconclusive("link never healthy again after %s", cause)
 			return
 		}
@@ -330,7 +351,7 @@ func (c08) term(sc core.Scenario, r *core.R) {
 	case k > 0:
 		inst = "k1..2"
 	}
-	r.Key(fmt.Sprintf("%s%s %s pos=%d cons=%d", cause, race, inst, sc.I("pos"), sc.I("cons")), len(keys) > 0 || sent > 0)
+	r.Key(fmt.Sprintf("%s%s %s pos=%d cons=%d noreconn=%d", cause, race, inst, sc.I("pos"), sc.I("cons"), sc.I("noreconn")), len(keys) > 0 || sent > 0)
 	r.Obs("values_received", int64(len(keys)))
 	r.Obs("terminations", 1)
 	r.Sig(core.Log.Signature())
